@@ -92,7 +92,16 @@ class DerivedProfile(StoreProfile):
         if not m.natural_type(base):
             base = rng.choice(ents)
         s, feats = gen_search(rng, m, self.vocab(run), base, simple=rng.random() < 0.3, allow_last=rng.random() < 0.2)
+        if rng.random() < 0.1 and len(base.split("/")) > 2:
+            # '>' followed by wildcards only: several found Sids share the last value (ties among the "last" ones)
+            segs = base.split("/")
+            k = rng.randrange(1, len(segs) - 1)
+            s = "/".join(segs[:k] + [">"] + ["*"] * (len(segs) - k - 1))
+            feats = {"last", "last_then_stars"}
+            run.probes["last_then_stars"] += 1
         party = rng.choice(["P:" + m.default_config, "P:" + m.configs[-1], "L:" + m.default_config, "A", "A"])
+        if rng.random() < 0.08:
+            party = "J:" + m.default_config      # a list that also holds entries conforming to no template
         return {"op": "five", "s": s, "party": party, "feats": sorted(feats)}
 
     def apply(self, run, step):
@@ -107,7 +116,21 @@ class DerivedProfile(StoreProfile):
 
     def check_five(self, run, party, s):
         run.stats["finder_cases"] += 1
-        fx = self.finder_exprs(run).get(party)
+        if party.startswith("J:"):
+            # FindInList over foreign content: the entities, preceded by copies of some of them with one segment replaced
+            # by a word outside every vocabulary (mostly untyped strings that the glob of a '*' search still matches).
+            # The relations between find / exists / find_one / as_sid are about whatever find yields.
+            items = run.store.listing(party.split(":", 1)[1])
+            junk = []
+            for k, e in enumerate(items[:4]):
+                segs = e.split("/")
+                j = 1 + (k + len(segs)) % (len(segs) - 1) if len(segs) > 1 else 0
+                segs[j] = "zz9 junk"
+                junk.append("/".join(segs))
+            fx = X.call("FindInList", junk + items)
+            run.probes["findinlist_with_foreign_entries"] += 1
+        else:
+            fx = self.finder_exprs(run).get(party)
         if fx is None:
             return
         run.do(fx, store="F")
